@@ -751,6 +751,7 @@ fn run_conc(rep: &mut vx::Report, thorough: bool, threads: usize) {
     let t0 = std::time::Instant::now();
     let cfgs: Arc<Vec<CCfg>> = Arc::new(cfgs);
     let accs: (Vec<Accum>, bool) = {
+        let _quiet = crate::Muted::new();
         let (c1, c2) = (cfgs.clone(), cfgs.clone());
         bdfs::explore_all(
             cfgs.len(),
@@ -758,7 +759,7 @@ fn run_conc(rep: &mut vx::Report, thorough: bool, threads: usize) {
             threads,
             Arc::new(move |i| conc_limits(&c1[i])),
             Arc::new(move |i| Arc::new(CLoad { cfg: c2[i].clone() }) as Arc<dyn Workload>),
-            Some(bdfs::deadline(if thorough { 45 * 60 } else { 15 * 60 })),
+            Some(bdfs::deadline(if thorough { 14 * 60 } else { 120 })),
         )
     };
     let (accs, capped) = accs;
@@ -862,6 +863,9 @@ fn replay_conc(rep: &mut vx::Report, t: &vx::ReplayTarget) -> Result<(), String>
     let acc = bdfs::run_item(bdfs::WorkItem::root(0), conc_limits(&cfg), Arc::new(CLoad { cfg }), None, Some(schedule));
     if let Some(f) = &acc.fatal {
         return Err(format!("replay diverged: {f}"));
+    }
+    for n in &acc.notes {
+        println!("note: {n}");
     }
     for (k, v) in &acc.viol {
         println!("violation key={k} detail={}", v.detail);
